@@ -97,4 +97,47 @@ inductive Reach (d0 : Disk P M) (nn : Name) (uOld uNew : UBT) (pf : P) : Disk P 
       Reach d0 nn uOld uNew pf
         ((d0.setC nn ⟨written (written (zeros UBSIZE) uOld) uNew, pf, ok⟩).setM nn m)
 
+/-! ## Opening a record for writing (recovery after a crash, patching on)
+
+`IH5Record.__init__(record, mode)` with a writable mode (record.py:496-504): `want_rw = mode != "r"`,
+so **both** `"r+"` and `"a"` take the same path:
+
+```
+ret = _open(paths, reopen_incomplete_patch=True)   newest container without hash → reopened "r+"   (374-380)
+if not _has_writable: create_patch()               otherwise a new container is created            (502-504)
+   path = <name>.p<newest index + 1>.ih5           _next_patch_filepath                            (220-226)
+   h5py.File(path, "x", …)                         fails with FileExistsError when the name is taken (241)
+```
+`taken` says whether a file with the computed name of the next patch exists in the directory (it
+does, for instance, whenever a strict prefix of the file list is opened). -/
+
+/-- what a writable open does once `_open` accepted the files -/
+inductive WAct
+  /-- the interrupted (uncommitted) newest container is opened `r+` again; nothing is created -/
+  | reopen
+  /-- a new patch container is created under a name that did not exist -/
+  | create
+  /-- `FileExistsError`: the name of the next patch is taken; nothing is written -/
+  | refuse
+deriving DecidableEq, Repr
+
+/-- `_has_writable` after `_open(…, reopen_incomplete_patch=True)`, then `create_patch` -/
+def writableAct (s : List (File P M)) (taken : Bool) : WAct :=
+  match s.getLast? with
+  | none => .refuse   -- `_open` never returns an empty list
+  | some f => if f.ub.hash.isNone then .reopen else if taken then .refuse else .create
+
+/-- `IH5Record(names, "r+" | "a")` on loaded files -/
+def openW (H : P → Digest) (HM : M → Digest) (mfAware : Bool) (fs : List (Option (File P M))) (taken : Bool) :
+    Except Chain.Err WAct :=
+  (openFiles H HM mfAware false fs).map (fun s => writableAct s taken)
+
+/-- `IH5Record(names, "r+" | "a")` on a disk; `next i` is the file name of patch number `i` -/
+def openRecW (H : P → Digest) (HM : M → Digest) (mfAware : Bool) (next : Nat → Name) (d : Disk P M)
+    (names : List Name) : Except Chain.Err WAct :=
+  (openRec H HM mfAware d names).map (fun s =>
+    writableAct s (match s.getLast? with
+      | none => false
+      | some f => (d.cont (next (f.ub.idx + 1))).isSome))
+
 end MetadorModel.Crash
